@@ -202,3 +202,27 @@ def slow_ack_scenarios(tag):
                   {"a": "quiesce"}, {"a": "state", "obj": "U1"}, {"a": "closeConn", "g": "X", "ctxMs": 2000, "wait": True}, {"a": "quiesce", "ms": 50}]
         scs.append({"id": "%s/slowAck/%d" % (tag, k), "kind": "iscp", "conn": {"pingMs": [5000, 2000]}, "steps": steps})
     return scs
+
+
+def empty_payload_scenarios(tag):
+    """points with an empty payload are points: a buffer that holds nothing but such points is flushed like any other (explicit Flush,
+    immediate / interval / size policy, the flush inside Close); totals and numbering count them."""
+    scs = []
+    pols = [("none", {"k": "none"}), ("immediate", {"k": "immediate"}), ("interval", {"k": "interval", "ms": 25}), ("size", {"k": "size", "size": 8}),
+            ("intervalOrSize", {"k": "intervalOrSize", "ms": 25, "size": 8})]
+    for name, pol in pols:
+        for k, shape in enumerate(("emptyOnly", "mixed", "emptyLast")):
+            steps = [{"a": "connect", "must": True}, {"a": "openUp", "obj": "U1", "qos": "reliable", "policy": pol, "must": True, "closeTimeoutMs": 3000},
+                     {"a": "ackMode", "mode": "auto"}]
+            w = lambda t, pts, idn="A": {"a": "write", "g": "W", "obj": "U1", "id": idn, "pts": pts, "ctxMs": 2000, "wait": True}
+            fl = {"a": "flush", "g": "W", "obj": "U1", "ctxMs": 2000, "wait": True}
+            if shape == "emptyOnly":
+                steps += [w(1, [[1, 0], [2, 0]]), dict(fl), {"a": "sleep", "ms": 60}, w(2, [[3, 0]], "B"), {"a": "sleep", "ms": 60}]
+            elif shape == "mixed":
+                steps += [w(1, [[1, 8]]), dict(fl), w(2, [[2, 0], [3, 0]], "B"), dict(fl), {"a": "sleep", "ms": 60}, w(3, [[4, 0]]), w(4, [[5, 4]], "B"), {"a": "sleep", "ms": 60}]
+            else:
+                steps += [w(1, [[1, 8]]), dict(fl), {"a": "sleep", "ms": 60}, w(2, [[2, 0]], "B"), w(3, [[3, 0]]), {"a": "sleep", "ms": 60}]
+            steps += [{"a": "join", "obj": "W"}, {"a": "closeUp", "g": "C", "obj": "U1", "ctxMs": 5000, "wait": True},
+                      {"a": "quiesce"}, {"a": "state", "obj": "U1"}, {"a": "closeConn", "g": "X", "ctxMs": 2000, "wait": True}, {"a": "quiesce", "ms": 50}]
+            scs.append({"id": "%s/emptyPayload/%s/%s" % (tag, name, shape), "kind": "iscp", "conn": {}, "steps": steps})
+    return scs
